@@ -36,6 +36,8 @@ func main() {
 		return
 	case "c05":
 		set, in = streams.C05(*seed, *n)
+	case "podstext":
+		set, in = streams.Pods("podstext", *seed, *n, "Model.Api Model.Pod Model.Checks Corr.PodCases", "pod_case", "run_pods_text", true)
 	default:
 		fmt.Fprintln(os.Stderr, "unknown stream", stream)
 		os.Exit(2)
